@@ -20,24 +20,7 @@ func c19(r *core.Run) {
 	r.Explanation = "Decided clause (narrow): constructor ownership of normalisation — StringValue and CharacterValue struct literals occur only in the constructors NewUnmeteredStringValue / NewUnmeteredCharacterValue (which apply norm.NFC) and the deprecated *_Unsafe constructors, " +
 		"and the unsafe constructors have no caller in shipped code; every other producer therefore yields NFC-normalised strings."
 	r.NotDecided = "grapheme-cluster semantics of every string operation (length, slicing, indexing, comparison)."
-	w := r.W
-	literalOwners(r, "R1.normalised", "interpreter", "StringValue", map[string]string{
-		"interpreter.NewUnmeteredStringValue": "applies norm.NFC",
-		"interpreter.NewStringValue_Unsafe":   "deprecated migration-only constructor (no shipped caller, checked below)",
-	})
-	if fn := mustFn(r, "R1.normalised", "interpreter", "", "NewUnmeteredStringValue"); fn != nil {
-		census(r, "R1.normalised", fn, "norm.NFC.String", func(o *types.Func) bool {
-			return o != nil && o.Pkg() != nil && strings.HasSuffix(o.Pkg().Path(), "unicode/norm") && o.Name() == "String"
-		}, 1)
-	}
-	for _, unsafe := range []string{"NewStringValue_Unsafe", "NewCharacterValue_Unsafe"} {
-		callers := w.CallersOf(funcOf(mod+"/interpreter", unsafe))
-		var ks []string
-		for k := range callers {
-			ks = append(ks, k)
-		}
-		r.Check(len(ks) == 0, "R1.normalised", "interpreter."+unsafe+": no shipped caller", 0, "only migrations/tests may call it", "the non-normalising constructor is called from shipped code: "+strings.Join(ks, ", "))
-	}
+	stringNormalisation(r, "R1.normalised")
 	r.Floor("R1.normalised", 4)
 }
 
@@ -176,4 +159,26 @@ func c40(r *core.Run) {
 		r.Undecided("R2.bases", "common.(IntegerLiteralKind).Base", "does not resolve")
 	}
 	r.Floor("R2.bases", 4)
+}
+
+// stringNormalisation: StringValue literals only in the normalising constructor; unsafe constructors have no shipped caller.
+func stringNormalisation(r *core.Run, rule string) {
+	w := r.W
+	literalOwners(r, rule, "interpreter", "StringValue", map[string]string{
+		"interpreter.NewUnmeteredStringValue": "applies norm.NFC",
+		"interpreter.NewStringValue_Unsafe":   "deprecated migration-only constructor (no shipped caller, checked below)",
+	})
+	if fn := mustFn(r, rule, "interpreter", "", "NewUnmeteredStringValue"); fn != nil {
+		census(r, rule, fn, "norm.NFC.String", func(o *types.Func) bool {
+			return o != nil && o.Pkg() != nil && strings.HasSuffix(o.Pkg().Path(), "unicode/norm") && o.Name() == "String"
+		}, 1)
+	}
+	for _, unsafe := range []string{"NewStringValue_Unsafe", "NewCharacterValue_Unsafe"} {
+		callers := w.CallersOf(funcOf(mod+"/interpreter", unsafe))
+		var ks []string
+		for k := range callers {
+			ks = append(ks, k)
+		}
+		r.Check(len(ks) == 0, rule, "interpreter."+unsafe+": no shipped caller", 0, "only migrations/tests may call it", "the non-normalising constructor is called from shipped code: "+strings.Join(ks, ", "))
+	}
 }
